@@ -76,6 +76,11 @@ class NoInputs(Mapping):
 
 
 _INSTR_CACHE = {}
+try:
+    with open(os.path.join(HERE, 'data', 'closed_lines.json')) as _f:
+        CLOSED_AT_PINNED_TREE = set(json.load(_f)['closed'])
+except FileNotFoundError:
+    CLOSED_AT_PINNED_TREE = set()
 
 
 def instructions_for(year, fname, form, cat):
@@ -375,12 +380,19 @@ def shard_isolated(ctx, k, payload):
                 vals = operand_values(data.draw, ins, kinds)
                 outcomes.add(check_isolated(ctx, year, fname, ln, line, ins, src, vals))
             hyp.run_data(body, n, seed)
+            key_ = f'{year}:{fname.split(":")[0]}.{ln}'
+            if key_ in CLOSED_AT_PINNED_TREE and 'not_closed' in outcomes:
+                # the definition used to need nothing but the lines its instruction names, on every path; now it reads something else
+                ctx.violation(f'{key_}:reads-beyond-instruction', f'{year} {fname} line {ln}: its instruction ("{ins.text[:110]}") names {ins.operands()}; the definition, '
+                              f'which used to be computable from exactly those, now reads another line or input', {'mode': 'closed', 'year': year, 'form': fname, 'line': ln})
             if 'checked' in outcomes:
                 ctx.count('isolated:closed_lines')
+                if 'not_closed' not in outcomes:
+                    ctx.note('closed_lines', key_)
             else:
                 ctx.count('isolated:not_closed_lines')
-                ctx.note('not_closed', f'{year}:{fname.split(":")[0]}.{ln} ({sorted(outcomes)})')
-
+                ctx.note('not_closed', f'{key_} ({sorted(outcomes)})')
+                pass
 
 # ---------------------------------------------------------------------------
 # (B) end to end
@@ -606,6 +618,10 @@ def shard_e2e(ctx, k, payload):
         p['amount_bias'] = data.draw(st.sampled_from(['typical', 'typical', 'large', 'small']))
         if data.draw(st.integers(0, 5)) == 0:
             p.update(status='MarriedFilingJointly', ira='8606', n_r=2, both_spouses_1099r=True)
+        elif data.draw(st.integers(0, 3)) == 0:
+            # Schedule B with more dividend payers than interest payers (and the other way round)
+            a_, b_ = data.draw(st.sampled_from([(0, 3), (1, 3), (1, 2), (0, 2), (3, 1), (3, 0)]))
+            p.update(n_int=a_, n_div=b_, big_interest=True, amount_bias='large')
         elif data.draw(st.integers(0, 9)) == 0:
             # little or no tax and foreign tax paid on interest (credits that exceed the tax)
             p.update(n_w2=0, wage_level='low', n_int=3, n_div=0, n_r=0, huge_interest=True, foreign_tax=True, itemize=False,
@@ -637,12 +653,16 @@ def run(ctx):
         for j in range(0, len(fnames), 4):
             payloads.append((year, fnames[j:j + 4], n_iso, ctx.seed * 977))
     hyp.pmap(ctx, shard_isolated, payloads)
-    n = 600 if quick else 20000
+    n = 960 if quick else 20000
     shards = 12 if quick else 16
     hyp.pmap(ctx, shard_e2e, [(n // shards, ctx.seed * 1000 + 200 + k) for k in range(shards)])
 
 
 def replay(ctx, case):
+    if case['mode'] == 'closed':
+        cat = catalog.get(case['year'])
+        shard_isolated(ctx, 0, (case['year'], [case['form']], 12, 977))
+        return
     if case['mode'] == 'isolated':
         cat = catalog.get(case['year'])
         form = cat.forms[case['form']]
